@@ -15,10 +15,14 @@ import Sigverif.Model.CacheId
 import Sigverif.Model.Cache
 import Sigverif.Model.Visitor
 import Sigverif.Model.Grammar
+import Sigverif.Model.GrammarDef
 import Sigverif.Model.Discovery
 import Sigverif.Model.WrappersAttr
 import Sigverif.Model.ReadSigText
 namespace SV.Proto
+
+/-- the name the harness gives every nested definition of a generated program (`def sub():`): `core.NAMES.id("sub")` -/
+def subName : Nat := 21
 
 def splitNE (s : String) (sep : String) : List String :=
   if s = "_" then [] else s.splitOn sep
@@ -672,7 +676,7 @@ def handle (line : String) : String :=
         | .error e => "err " ++ showErr e)
     | "render" :: rest => do
       let (p, rest') ← parseProg rest
-      if rest' ≠ [] then none else some ("ok " ++ " ".intercalate (showTree (render p)))
+      if rest' ≠ [] then none else some ("ok " ++ " ".intercalate (showTree (renderNamed subName p)))
     | "progok" :: rest => do
       let (p, rest') ← parseProg rest
       if rest' ≠ [] then none else some (toString p.ok)
@@ -682,7 +686,7 @@ def handle (line : String) : String :=
     | "pvisit" :: rest => do
       let (p, rest') ← parseProg rest
       if rest' ≠ [] then none else
-      some (match runVisitor (render p) with
+      some (match runVisitor (renderNamed subName p) with
         | .ok cs => showCalls (forwarding cs)
         | .error e => "err " ++ showErr e)
     | "pauto" :: pm :: k :: rest => do
@@ -690,7 +694,7 @@ def handle (line : String) : String :=
       let (own, rest) ← parseSig rest
       let (p, rest') ← parseProg rest
       if rest' ≠ [] then none else
-      some (match runVisitor (render p) with
+      some (match runVisitor (renderNamed subName p) with
         | .ok cs => showRes (discovered own (resolveWith tbl pm) (some cs))
         | .error e => "err " ++ showErr e)
     | "pautom" :: pm :: k :: rest => do
@@ -699,7 +703,7 @@ def handle (line : String) : String :=
       let (own, rest) ← parseSig rest
       let (p, rest') ← parseProg rest
       if rest' ≠ [] then none else
-      some (match runVisitor (render p) with
+      some (match runVisitor (renderNamed subName p) with
         | .ok cs => showRes (discoveredMethod own (resolveWith tbl pm) (some cs))
         | .error e => "err " ++ showErr e)
     | "pautop" :: n :: kw :: pobj :: pm :: k :: rest => do
@@ -711,7 +715,7 @@ def handle (line : String) : String :=
       let kws ← parsePairs kw "."
       let n' ← n.toNat?
       let po ← pobj.toNat?
-      some (match runVisitor (render p) with
+      some (match runVisitor (renderNamed subName p) with
         | .ok cs => showRes (discoveredPartial own (resolveWith tbl pm) (some cs) n' kws po)
         | .error e => "err " ++ showErr e)
     | "pautoh" :: pp :: ww :: pm :: k :: rest => do
@@ -722,7 +726,7 @@ def handle (line : String) : String :=
       if rest' ≠ [] then none else
       let P ← parseNats pp "."
       let W ← parseNats ww "."
-      some (match runVisitor (render p) with
+      some (match runVisitor (renderNamed subName p) with
         | .ok cs => showRes (discoveredHint own P W (resolveWith tbl pm) (some cs))
         | .error e => "err " ++ showErr e)
     | "wlist" :: lv :: [] => do
